@@ -274,7 +274,7 @@ def run(ctx):
     else:
         passes = 6
     k = 0
-    nstream = 0
+    fam_count = {}
     stopped = False
     for rep in range(passes):
         for (c, m) in suites:
@@ -292,8 +292,10 @@ def run(ctx):
                     stopped = True
                     break
                 role = rng.choice(["client", "server"])
-                nstream += 1
-                b = record_stream(rng, c, m, comp, role, rekey, ctx.quick, k=nstream + ctx.shard)
+                # reverse family cycles per forward family, so every (inbound, outbound) pair is populated evenly
+                ff = pb.framing_mode(c, m)
+                fam_count[ff] = fam_count.get(ff, 0) + 1
+                b = record_stream(rng, c, m, comp, role, rekey, ctx.quick, k=fam_count[ff] + ctx.shard)
                 R = Recorded(b, c, m, comp)
                 # the untampered stream is C01's subject; here a receiver that fails on it is just a
                 # receiver that fails: the fault enumeration and its oracles apply unchanged
